@@ -261,7 +261,7 @@ def run(ctx):
                       {"harness": "harness/xorwow.cc", "ops_A": A[:50] + (["..."] if len(A) > 50 else []),
                        "n_ops_A": len(A), "ops_B": B[:50] + (["..."] if len(B) > 50 else []),
                        "n_ops_B": len(B), "state_A": oa, "state_B": ob,
-                       "contradicts": "discard_eq_draws / discardSubsequence_eq"})
+                       "contradicts": "discard_eq_draws / discardSubsequence_eq / discard_compose / discard_subsequence_commute"})
     if broken and not ctx.violations:
         ctx.violation("unproved", "; ".join(broken)[:600],
                       {"no_longer_checks": broken, "diverging_scripts": diverged[:3]},
